@@ -272,6 +272,9 @@ def run_impl(inp):
     if impl in (3, 4):
         import c04_async
         return c04_async.run(inp)
+    if impl in (5, 6, 7, 9):
+        import c04_real
+        return c04_real.run(inp)
     raise ValueError(f"unknown impl {impl}")
 
 
@@ -281,6 +284,16 @@ def oracle(inp):
     path, iov, chunks, T, ri, sscript, selscript, impl = inp[:8]
     out = run_impl(inp)
     outcome, wire = out[0], out[1]
+    if impl in (5, 6, 7, 9):
+        import realio
+        want = b"".join(realio.chunk_bytes(c) for c in chunks)
+        if outcome == 0 and wire != realio.digest(want):
+            return f"returned but the peer received {wire} (length, checksum) instead of {realio.digest(want)}"
+        if outcome in (8, 9):
+            return "send does not terminate (real socket)"
+        if outcome != 0:
+            return f"unexpected exception class (code {outcome}) on a healthy real connection"
+        return None
     want = b"".join(chunks)
     if outcome == 9:
         return f"send does not terminate: socket called more than {fuel_bound(chunks, sscript)} times, wire={wire!r}"
@@ -342,7 +355,8 @@ ANS = {"s1": [0, 1, 0], "s2": [0, 2, 0], "all": [0, 99, 0], "s0": [0, 0, 0], "ea
 
 
 def _nontrivial(chunks, sscript):
-    total = sum(map(len, chunks))
+    total = sum(len(c) if isinstance(c, bytes) else c[1] for c in chunks)
+    chunks = [c if isinstance(c, bytes) else b'x' * min(c[1], 1) for c in chunks]
     return bool(any(len(c) == 0 for c in chunks) or any(a[0] != 0 or a[1] < total for a in sscript))
 
 
@@ -439,6 +453,39 @@ def cases(tier, rng, escalate):
             for a in s:
                 a[2] = 0
             yield _case(4, 1024, lengths, None, None, s, [], 3, ["asyncio-adapter"])
+    # real sockets / real TLS objects: outcome + digest of the received bytes
+    def real_case(path, iov, specs, impl, sndbuf, piece, delay_ms, ver, ri):
+        total = sum(len(c) if isinstance(c, bytes) else c[1] for c in specs)
+        tags = ["real", f"path{path}", f"impl{impl}", f"iov{iov}" if path == 5 else "iov-",
+                "big-payload" if total > 20000 else "small-payload",
+                "empty-chunk" if any((len(c) if isinstance(c, bytes) else c[1]) == 0 for c in specs) else "no-empty"]
+        return dict(input=[path, iov, [c if isinstance(c, bytes) else list(c) for c in specs], [], iosim.tmo_sx(ri), [], [], impl,
+                           [sndbuf, piece, delay_ms, ver]], tags=tags, nontrivial=True)
+
+    n_real = 25 if thorough else 8
+    for i in range(n_real):
+        for impl, path in ((5, 5), (6, 5), (7, 6), (9, 7)):
+            k = rng.randint(1, 5)
+            specs = []
+            for _ in range(k):
+                r = rng.random()
+                if r < 0.2:
+                    specs.append(b"")
+                elif r < 0.5:
+                    specs.append(bytes(rng.randrange(256) for _ in range(rng.randint(1, 40))))
+                else:
+                    big = sum(c[1] for c in specs if not isinstance(c, bytes)) >= 30000
+                    specs.append((rng.randrange(1, 2 ** 30), rng.choice([300, 5000] if big else ([300, 5000, 60000, 100000] if thorough else [300, 5000, 30000]))
+                                  if impl != 9 else rng.choice([300, 5000, 40000])))
+            rng.shuffle(specs)
+            yield real_case(path, rng.choice([1, 2, 1024]) if path == 5 else 1024, specs, impl,
+                            rng.choice([0, 4096, 4096, 16384]), rng.choice([512, 4096, 65536]), rng.choice([0, 0, 20]),
+                            rng.choice([12, 13]), rng.choice([None, 1024]))
+    # small real cases: every list of <= 2 chunks over lengths {0,1,3}, every real transport
+    for lengths in [l for l in lists if len(l) <= 2]:
+        for impl, path in ((5, 5), (6, 5), (7, 6), (9, 7)):
+            yield real_case(path, rng.choice([1, 2, 1024]) if path == 5 else 1024, mk_chunks(lengths), impl, 0, 4096, 0,
+                            rng.choice([12, 13]), None)
     # random volume
     n_random = 12000 if thorough else 2500
     for _ in range(n_random):
@@ -459,6 +506,9 @@ def cases(tier, rng, escalate):
 
 def extra(ctx):
     try:
-        return {"sendmsg_drops_empty_views": drops_empty_views()}
+        import realio
+        return {"sendmsg_drops_empty_views": drops_empty_views(),
+                "asyncio_adapter_guards_empty_iterable": adapter_guards_empty_iterable(),
+                "real_socket_stream": dict(realio.STATS)}
     except runner.TranslateError:
         return {}
